@@ -242,12 +242,19 @@ class FileProxy:
         return self._ctx.event(["flush"], lambda: self._f.seek(*a))
 
     def close(self):
+        def really_close():
+            try:
+                return self._f.close()
+            finally:
+                if self._ctx.fd == self._fd:
+                    self._ctx.fd = None       # the number may be reused by an unrelated descriptor from now on
+
         def on_fault():
             try:
-                self._f.close()
+                really_close()
             except Exception:
                 pass
-        return self._ctx.event(["close"], self._f.close, on_fault=on_fault)
+        return self._ctx.event(["close"], really_close, on_fault=on_fault)
 
     def fileno(self):
         return self._f.fileno()
